@@ -840,6 +840,43 @@ MUTANTS = [
     dict(name='c05-seed5-is-divisible-adds-the-grain-to-begin', prop='C05', clause='D1', edits=[('include/oneapi/tbb/blocked_range.h',
         "    bool is_divisible() const { return my_grainsize<size(); }",
         "    bool is_divisible() const { return Value(my_begin + my_grainsize) < my_end; }")]),
+    dict(name='c02-seed5-rw-downgrade-wakes-one-reader', prop='C02', clause='D4', edits=[('include/oneapi/tbb/rw_mutex.h',
+        "            r1::notify_by_address(this, READER_CONTEXT);\n        }\n\n        __TBB_ASSERT(m_state.load(std::memory_order_relaxed) & READERS, \"invalid state after downgrade: no readers\");",
+        "            r1::notify_by_address_one(this);\n        }\n\n        __TBB_ASSERT(m_state.load(std::memory_order_relaxed) & READERS, \"invalid state after downgrade: no readers\");")]),
+    dict(name='c08-seed5-rw-downgrade-wakes-nobody', prop='C08', clause='D7', edits=[('include/oneapi/tbb/rw_mutex.h',
+        "        if (!(m_state & WRITER_PENDING)) {\n            r1::notify_by_address(this, READER_CONTEXT);\n        }\n\n        __TBB_ASSERT(m_state.load(std::memory_order_relaxed) & READERS, \"invalid state after downgrade: no readers\");",
+        "        __TBB_ASSERT(m_state.load(std::memory_order_relaxed) & READERS, \"invalid state after downgrade: no readers\");")]),
+    dict(name='c06-seed5-zombie-flag-raised-before-the-split', prop='C06', clause='D2', edits=[('include/oneapi/tbb/parallel_reduce.h',
+        "        my_body = static_cast<Body*>(new( parent_ptr->zombie_space.begin() ) Body(*my_body, split()));\n        parent_ptr->has_right_zombie = true;",
+        "        parent_ptr->has_right_zombie = true;\n        my_body = static_cast<Body*>(new( parent_ptr->zombie_space.begin() ) Body(*my_body, split()));")]),
+    dict(name='c03-zombie-flag-raised-before-the-split', prop='C03', clause='D4', edits=[('include/oneapi/tbb/parallel_reduce.h',
+        "        my_body = static_cast<Body*>(new( parent_ptr->zombie_space.begin() ) Body(*my_body, split()));\n        parent_ptr->has_right_zombie = true;",
+        "        parent_ptr->has_right_zombie = true;\n        my_body = static_cast<Body*>(new( parent_ptr->zombie_space.begin() ) Body(*my_body, split()));")]),
+    dict(name='c12-seed5-unlink-counts-the-node-out-and-merge-puts-it-back', prop='C12', clause='D8', edits=[
+        ('include/oneapi/tbb/detail/_concurrent_unordered_base.h', "                unlink_node(prev_node, node, node_to_extract->next());\n                my_size.store(my_size.load(std::memory_order_relaxed) - 1, std::memory_order_relaxed);",
+         "                unlink_node(prev_node, node, node_to_extract->next());"),
+        ('include/oneapi/tbb/detail/_concurrent_unordered_base.h', "                    } else {\n                        source.my_size.fetch_sub(1, std::memory_order_relaxed);\n                    }", "                    }"),
+        ('include/oneapi/tbb/detail/_concurrent_unordered_base.h', "        prev_node->set_next(next_node);\n        node_to_unlink->set_next(nullptr);", "        prev_node->set_next(next_node);\n        node_to_unlink->set_next(nullptr);\n        my_size.fetch_sub(1, std::memory_order_relaxed);")]),
+    dict(name='c12-extract-does-not-count-the-node-out', prop='C12', clause='D8', edits=[
+        ('include/oneapi/tbb/detail/_concurrent_unordered_base.h', "                unlink_node(prev_node, node, node_to_extract->next());\n                my_size.store(my_size.load(std::memory_order_relaxed) - 1, std::memory_order_relaxed);",
+         "                unlink_node(prev_node, node, node_to_extract->next());")]),
+    dict(name='c14-seed5-release-does-not-request-forwarding', prop='C14', clause='D1', edits=[('include/oneapi/tbb/flow_graph.h',
+        "            case rel_res:  internal_release(tmp); try_forwarding = true; break;", "            case rel_res:  internal_release(tmp); break;")]),
+    dict(name='c14-consume-does-not-request-forwarding', prop='C14', clause='D1', edits=[('include/oneapi/tbb/flow_graph.h',
+        "            case con_res:  internal_consume(tmp); try_forwarding = true; break;", "            case con_res:  internal_consume(tmp); break;")]),
+    dict(name='c17-seed5-calloc-heuristic-requires-both-factors-large', prop='C17', clause='D2', edits=[('src/tbbmalloc/frontend.cpp',
+        "    if (nobj>=mult_not_overflow || size>=mult_not_overflow) // 1) heuristic check", "    if (nobj>=mult_not_overflow && size>=mult_not_overflow) // 1) heuristic check")]),
+    dict(name='c18-seed5-middle-cut-tests-the-sum-of-the-leftovers', prop='C18', clause='D3', edits=[('src/tbbmalloc/backend.cpp',
+        """                if (rightNew <= rightCurr
+                        && (newB == curr || ((uintptr_t)newB - (uintptr_t)curr) >= FreeBlock::minBlockSize)
+                        && (rightNew == rightCurr || (rightCurr - rightNew) >= FreeBlock::minBlockSize))
+                    fBlock = curr;""",
+        """                size_t rest = szBlock - size;
+                if (rightNew <= rightCurr && (rest >= FreeBlock::minBlockSize || !rest))
+                    fBlock = curr;""")]),
+    dict(name='c18-middle-cut-does-not-test-the-right-leftover', prop='C18', clause='D3', edits=[('src/tbbmalloc/backend.cpp',
+        "                        && (rightNew == rightCurr || (rightCurr - rightNew) >= FreeBlock::minBlockSize))\n                    fBlock = curr;",
+        "                        )\n                    fBlock = curr;")]),
     dict(name='c01-seed3-run-and-wait-handle-epilogue-on-exception-only', prop='C01', clause='D9', edits=[('include/oneapi/tbb/task_group.h',
         """            execute_and_wait(*acs::release(h), context(), m_wait_vertex.get_context(), context());
         }).on_completion([&] {""",
@@ -1828,6 +1865,21 @@ BENIGN = [
     dict(name='c05-b-is-divisible-written-the-other-way-round', prop='C05', edits=[('include/oneapi/tbb/blocked_range.h',
         "    bool is_divisible() const { return my_grainsize<size(); }",
         "    bool is_divisible() const { return size() > my_grainsize; }")]),
+    dict(name='c02-b-rw-downgrade-wakes-everybody', prop='C02', edits=[('include/oneapi/tbb/rw_mutex.h',
+        "            r1::notify_by_address(this, READER_CONTEXT);\n        }\n\n        __TBB_ASSERT(m_state.load(std::memory_order_relaxed) & READERS, \"invalid state after downgrade: no readers\");",
+        "            r1::notify_by_address_all(this);\n        }\n\n        __TBB_ASSERT(m_state.load(std::memory_order_relaxed) & READERS, \"invalid state after downgrade: no readers\");")]),
+    dict(name='c06-b-zombie-split-in-a-node-helper', prop='C06', edits=[
+        ('include/oneapi/tbb/parallel_reduce.h', "    void join(task_group_context* context) {\n        if (has_right_zombie && !context->is_group_execution_cancelled())",
+         "    Body* split_right_zombie() {\n        Body* b = new( zombie_space.begin() ) Body(left_body, detail::split());\n        has_right_zombie = true;\n        return b;\n    }\n\n    void join(task_group_context* context) {\n        if (has_right_zombie && !context->is_group_execution_cancelled())"),
+        ('include/oneapi/tbb/parallel_reduce.h', "        tree_node_type* parent_ptr = static_cast<tree_node_type*>(my_parent);\n        my_body = static_cast<Body*>(new( parent_ptr->zombie_space.begin() ) Body(*my_body, split()));\n        parent_ptr->has_right_zombie = true;",
+         "        my_body = static_cast<tree_node_type*>(my_parent)->split_right_zombie();")]),
+    dict(name='c03-b-zombie-split-in-a-node-helper', prop='C03', edits=[
+        ('include/oneapi/tbb/parallel_reduce.h', "    void join(task_group_context* context) {\n        if (has_right_zombie && !context->is_group_execution_cancelled())",
+         "    Body* split_right_zombie() {\n        Body* b = new( zombie_space.begin() ) Body(left_body, detail::split());\n        has_right_zombie = true;\n        return b;\n    }\n\n    void join(task_group_context* context) {\n        if (has_right_zombie && !context->is_group_execution_cancelled())"),
+        ('include/oneapi/tbb/parallel_reduce.h', "        tree_node_type* parent_ptr = static_cast<tree_node_type*>(my_parent);\n        my_body = static_cast<Body*>(new( parent_ptr->zombie_space.begin() ) Body(*my_body, split()));\n        parent_ptr->has_right_zombie = true;",
+         "        my_body = static_cast<tree_node_type*>(my_parent)->split_right_zombie();")]),
+    dict(name='c12-b-extract-counts-out-with-fetch-sub', prop='C12', edits=[('include/oneapi/tbb/detail/_concurrent_unordered_base.h',
+        "                my_size.store(my_size.load(std::memory_order_relaxed) - 1, std::memory_order_relaxed);", "                my_size.fetch_sub(1, std::memory_order_relaxed);")]),
     dict(name='c01-b-group-wait-epilogue-in-a-named-lambda', prop='C01', edits=[('include/oneapi/tbb/task_group.h',
         """        try_call([&] {
             d1::wait(m_wait_vertex.get_context(), context());
